@@ -184,6 +184,105 @@ func mapHeapKey(m *types.Map) string {
 	return "M_" + smtName(types.TypeString(m, func(p *types.Package) string { return p.Name() }))
 }
 
+// modMatches: may the loop (by its modification set) change the array of that name?
+func (ms *modSet) modMatches(k string) bool {
+	if _, ok := ms.mem[k]; ok {
+		return true
+	}
+	if ms.memAll[k] {
+		return true
+	}
+	if ms.heapAll && (strings.HasPrefix(k, "H_") || strings.HasPrefix(k, "M_") || strings.HasPrefix(k, "S_")) {
+		return true
+	}
+	for p := range ms.heap {
+		if k == p || strings.HasPrefix(k, p+".") || strings.HasPrefix(k, p+"$") {
+			return true
+		}
+	}
+	return false
+}
+
+// materialiseLoopHeap makes sure that every memory / heap array the loop may modify is present in
+// the pre-state before the head state is built. Arrays are materialised lazily (an absent name
+// stands for the entry constant, i.e. "not modified so far"); havoc can only replace the arrays it
+// finds, so an array whose first use lies inside the loop body used to keep its entry value at the
+// loop head: the stores of earlier iterations were forgotten and prefix invariants over old values
+// were inductive for free (unsound; reported by a contract-writing agent on mat.Dense.Copy).
+// Memory arrays are found by element type; heap arrays by executing the body once in discard mode
+// and recording what it touches.
+func (fx *FuncCtx) materialiseLoopHeap(pre *State, ms *modSet, lf *loopFrame, ld *loopDesc, bodyDefs map[types.Object]ast.Expr, it Term) {
+	needProbe := len(ms.heap) > 0 || ms.heapAll
+	for name := range ms.mem {
+		if _, ok := pre.heap[name]; ok {
+			continue
+		}
+		if s, ok := memSortReg.Load(name); ok {
+			fx.heapGet(pre, name, s.(Sort))
+		} else {
+			needProbe = true
+		}
+	}
+	for name := range ms.memAll {
+		if _, ok := pre.heap[name]; ok {
+			continue
+		}
+		if s, ok := memSortReg.Load(name); ok {
+			fx.heapGet(pre, name, s.(Sort))
+		} else {
+			needProbe = true
+		}
+	}
+	if !needProbe {
+		return
+	}
+	if fx.loopHeapKeys == nil {
+		fx.loopHeapKeys = map[ast.Node][]heapDecl{}
+	}
+	add := func(ds []heapDecl) bool {
+		added := false
+		for _, d := range ds {
+			if _, ok := pre.heap[d.name]; ok {
+				continue
+			}
+			if ms.modMatches(d.name) {
+				fx.heapGet(pre, d.name, d.sort)
+				added = true
+			}
+		}
+		return added
+	}
+	if ks, ok := fx.loopHeapKeys[ld.node]; ok {
+		add(ks)
+		return
+	}
+	var all []heapDecl
+	for round := 0; round < 4; round++ {
+		n0 := len(fx.heapDeclLog)
+		snap := fx.snapshot()
+		fx.discard++
+		fx.probing++
+		exitsBefore := len(fx.exits)
+		fx.loops = append(fx.loops, lf)
+		fx.declare(fmt.Sprintf("(declare-const %s Int)", it.S))
+		head := fx.havoc(pre, ms, lf, bodyDefs)
+		head.assume(Ge(it, IntLit(0)))
+		fx.loopBody(head, ld, lf, nil)
+		fx.loops = fx.loops[:len(fx.loops)-1]
+		fx.exits = fx.exits[:exitsBefore]
+		fx.probing--
+		fx.discard--
+		seen := append([]heapDecl(nil), fx.heapDeclLog[n0:]...)
+		fx.heapDeclLog = fx.heapDeclLog[:n0]
+		fx.restore(snap)
+		all = append(all, seen...)
+		if !add(seen) {
+			break
+		}
+	}
+	fx.loopHeapKeys[ld.node] = all
+}
+
 // havoc builds the loop-head state from the pre-state.
 func (fx *FuncCtx) havoc(pre *State, ms *modSet, lf *loopFrame, bodyDefs map[types.Object]ast.Expr) *State {
 	h := pre.clone()
@@ -773,6 +872,8 @@ func (fx *FuncCtx) execLoop(pre *State, ld *loopDesc) Flow {
 		lf.seenName = ld.ghostHeap[0]
 	}
 
+	fx.materialiseLoopHeap(pre, ms, lf, ld, bodyDefs, it)
+
 	// --- candidates ---------------------------------------------------------
 	var cands []cand
 	sites := fx.updateSites(ld)
@@ -1117,6 +1218,10 @@ func (fx *FuncCtx) execLoop(pre *State, ld *loopDesc) Flow {
 			}
 		}
 		cands = cs
+	}
+
+	if fx.probing > 0 {
+		cands = nil // the body is executed only to see which arrays it touches
 	}
 
 	// --- Houdini ------------------------------------------------------------
